@@ -13,6 +13,16 @@ Definition strat_of (n : N) : strategy :=
 Definition conn_of (a : sx) : option conn :=
   match a with
   | SL [SB al; SN sq; SZ r] => Some (mkConn al sq r)
+  | SL [SB al; SN _; SN sq2; SZ r] => Some (mkConn al sq2 r)     (* what the second read sees *)
+  | _ => None
+  end.
+
+(* what the first read of updateBest sees: (alive seqno1 seqno2 rtt) is a connection whose
+   head rises from seqno1 to seqno2 between the two reads *)
+Definition conn1_of (a : sx) : option conn :=
+  match a with
+  | SL [SB al; SN sq; SZ r] => Some (mkConn al sq r)
+  | SL [SB al; SN sq1; SN _; SZ r] => Some (mkConn al sq1 r)
   | _ => None
   end.
 
@@ -20,6 +30,15 @@ Fixpoint conns_of (l : list sx) : option (list conn) :=
   match l with
   | [] => Some []
   | a :: t => match conn_of a, conns_of t with
+              | Some c, Some cs => Some (c :: cs)
+              | _, _ => None
+              end
+  end.
+
+Fixpoint conns1_of (l : list sx) : option (list conn) :=
+  match l with
+  | [] => Some []
+  | a :: t => match conn1_of a, conns1_of t with
               | Some c, Some cs => Some (c :: cs)
               | _, _ => None
               end
@@ -39,9 +58,9 @@ Definition out_choice (r : option nat) : sx :=
 Definition run_ub (a : sx) : sx :=
   match a with
   | SL [SN st; pv; SL cl] =>
-      match prev_of pv, conns_of cl with
-      | Some prev, Some cs => out_choice (update_best (strat_of st) cs prev)
-      | _, _ => sx_err "ub args"
+      match prev_of pv, conns1_of cl, conns_of cl with
+      | Some prev, Some cs1, Some cs2 => out_choice (update_best2 (strat_of st) cs1 cs2 prev)
+      | _, _, _ => sx_err "ub args"
       end
   | _ => sx_err "ub"
   end.
@@ -246,7 +265,7 @@ Section Walk.
             (SA "done", obs, s1, ps1, outs)
           else if is "tick" then
             if busy ps GRun then ret (SA "busy", s, ps) else
-            ret (launch i GRun [MLabel LTick; MLabel LUpdLock; MLabel (LUpdDone obs)] KBest (SA "blocked") s ps)
+            ret (launch i GRun [MLabel LTick; MLabel LUpdLock; MLabel (LUpdDone obs [])] KBest (SA "blocked") s ps)
           else if is "state" then
             let locked := match writer s with Some _ => true | None => false end || existsb wants_lock ps in
             ret (SL [sx_nat (List.length (updq s));
